@@ -290,6 +290,23 @@ class Interp:
                         cur = nxt
                     fl.normal.update(cur)
             return fl
+        if isinstance(st, ast.Delete):
+            # del x / del o.f / del xs[i] / del xs[a:b]: a store of "nothing" into the target; clients see assign(.., None, Delete)
+            for s in states:
+                cur = [s.at(st)]
+                for t in st.targets:
+                    nxt = []
+                    for x in cur:
+                        ys = [x]
+                        if isinstance(t, ast.Attribute):
+                            ys = self.eval(t.value, x)
+                        elif isinstance(t, ast.Subscript):
+                            ys = self._eval_seq([t.value, t.slice], [x])
+                        for y in ys:
+                            nxt += c.assign(self, y, t, None, st)
+                    cur = nxt
+                fl.normal.update(cur)
+            return fl
         if isinstance(st, ast.AugAssign):
             for s in states:
                 for s2 in self.eval(st.value, s.at(st)):
@@ -336,15 +353,18 @@ class Interp:
         if isinstance(st, ast.Return):
             for s in states:
                 s = s.at(st)
+                # inside a try with a finally clause the function is left only after the finally body ran: the client's
+                # exit hook is called then (see Try below)
+                hook = (lambda x, v: c.on_return(self, x, v, st)) if not getattr(self, '_fin', 0) else (lambda x, v: x)
                 if st.value is not None and _boolish(st.value):
                     t, f = self.cond(st.value, s)
                     for x in t:
-                        fl.ret.append((c.on_return(self, x, ('bool', True, st.value), st), ('bool', True, st.value), st))
+                        fl.ret.append((hook(x, ('bool', True, st.value)), ('bool', True, st.value), st))
                     for x in f:
-                        fl.ret.append((c.on_return(self, x, ('bool', False, st.value), st), ('bool', False, st.value), st))
+                        fl.ret.append((hook(x, ('bool', False, st.value)), ('bool', False, st.value), st))
                 else:
                     for x in self.eval(st.value, s):
-                        fl.ret.append((c.on_return(self, x, st.value, st), st.value, st))
+                        fl.ret.append((hook(x, st.value), st.value, st))
             return fl
         if isinstance(st, ast.Raise):
             for s in states:
@@ -364,6 +384,8 @@ class Interp:
             fl.normal = set(states)
             return fl
         if isinstance(st, ast.Try):
+            if st.finalbody:
+                self._fin = getattr(self, '_fin', 0) + 1
             body = self.exec_block(st.body, states)
             # an exception may be raised anywhere in the body: handlers start from the entry states and every state reached in the body
             entry = set(states) | body.normal | {s for s, _ in body.rais}
@@ -386,6 +408,7 @@ class Interp:
                 pend.ret += ef.ret
                 rais += ef.rais
             if st.finalbody:
+                self._fin -= 1
                 # finally runs on every exit
                 nf = self.exec_block(st.finalbody, normal)
                 fl.normal = nf.normal
@@ -399,6 +422,8 @@ class Interp:
                 for (s, v, rs) in pend.ret:
                     ff = self.exec_block(st.finalbody, {s})
                     for x in ff.normal:
+                        if not self._fin:
+                            x = c.on_return(self, x, v, rs)
                         fl.ret.append((x, v, rs))
                 # exceptional exit: from any state of the protected region
                 exc_entry = entry | {s for s, _ in rais}
